@@ -9,12 +9,66 @@ package main
 
 import (
 	"fmt"
+	"net"
 	"strconv"
 	"strings"
 	"time"
 )
 
 var c01Hostile = []string{"x\r\n+OK", "\r\n", "1\r\n:2", "-ERR x\r\n", "$-1\r\n", "*2\r\n", "abc", "", "0", "-1", "18446744073709551616", "k1", "{t}a", "match", "count", "\n", "\r"}
+
+func crossTalk(cl *simCluster, sp *simProxy, token []byte) string {
+	setup := dialProxy(sp.addr)
+	for _, kv := range [][2]string{{"cross:a", "AAAAAAAAAAAAAAAA"}, {"cross:b", string(token)}} {
+		setup.send(bulkArr([]byte("set"), []byte(kv[0]), []byte(kv[1])).bytes(), nil)
+		if _, err := setup.recv(3 * time.Second); err != nil {
+			setup.close()
+			return "SETUP-FAILED"
+		}
+	}
+	setup.close()
+	cl.mu.Lock()
+	for _, nd := range cl.nodes {
+		nd.delayMs = 25
+	}
+	cl.mu.Unlock()
+	defer func() {
+		cl.mu.Lock()
+		for _, nd := range cl.nodes {
+			nd.delayMs = 0
+		}
+		cl.mu.Unlock()
+	}()
+	b := dialProxy(sp.addr)
+	defer b.close()
+	bad := ""
+	for round := 0; round < 6 && bad == ""; round++ {
+		a := dialProxy(sp.addr)
+		var buf []byte
+		for i := 0; i < 40; i++ {
+			buf = append(buf, bulkArr([]byte("get"), []byte("cross:a")).bytes()...)
+		}
+		a.send(buf, nil)
+		time.Sleep(10 * time.Millisecond)
+		if tc, ok := a.c.(*net.TCPConn); ok {
+			tc.SetLinger(0)
+		}
+		a.close()
+		for i := 0; i < 12 && bad == ""; i++ {
+			b.send(bulkArr([]byte("get"), []byte("cross:b")).bytes(), nil)
+			v, err := b.recvPatient(4 * time.Second)
+			if err != nil {
+				bad = "NO-REPLY on the other connection"
+			} else if v.t != '$' || string(v.s) != string(token) {
+				bad = "the other connection received " + v.String()
+			}
+		}
+	}
+	if bad != "" {
+		return "CROSS-TALK: " + bad
+	}
+	return "replies=1"
+}
 
 func init() {
 	register("c01frame", func() {
@@ -40,6 +94,11 @@ func init() {
 			f := strings.Fields(hd[0])
 			token := []byte(f[1])
 			sp := spFast
+			if len(f) > 2 && f[2] == "cross" {
+				// a connection goes away with forty requests still on their way to slow nodes; another connection keeps
+				// asking for its own key: every reply it gets is its own
+				return crossTalk(cl, spFast, token)
+			}
 			late := len(f) > 2 && f[2] == "late"
 			if late {
 				// a node that answers after 3.3 s: the one reply is the node's
@@ -125,6 +184,7 @@ func init() {
 		r := newRng(*fSeed)
 		emit(fmt.Sprintf("2 tok%d_slow slow # %s ; %s", *fSeed, bulkArr([]byte("get"), []byte("k1")).String(), bulkArr([]byte("set"), []byte("k2"), []byte("v")).String()))
 		emit(fmt.Sprintf("0 tok%d_late late # -", *fSeed))
+		emit(fmt.Sprintf("0 tok%d_cross cross # -", *fSeed))
 		// every command name once with hostile arguments, then random sequences
 		mk := func(name string) string {
 			args := [][]byte{mixCase(r, name)}
